@@ -26,7 +26,12 @@ from puresnmp.exc import ErrorResponse, NotInTimeWindow, SnmpError
 from puresnmp.pdu import GetRequest, PDUContent, Report
 from puresnmp.plugins.security import SecurityModel
 from puresnmp.transport import MESSAGE_MAX_SIZE
-from puresnmp.util import get_request_id, localise_key, validate_response_id
+from puresnmp.util import (
+    get_request_id,
+    localise_key,
+    validate_ber_structure,
+    validate_response_id,
+)
 
 IDENTIFIER = 3
 
@@ -152,6 +157,7 @@ class USMSecurityParameters:
         """
         Construct a USMSecurityParameters instance from pure bytes
         """
+        validate_ber_structure(data)
         seq, _ = decode(data, enforce_type=Sequence)
         return USMSecurityParameters.from_snmp_type(seq)
 
@@ -395,6 +401,7 @@ def decrypt_message(
             security_parameters.priv_params,
             message.scoped_pdu.value,
         )
+        validate_ber_structure(decrypted)
         message = cast(
             PlainMessage,
             replace(message, scoped_pdu=ScopedPDU.decode(decrypted)),
@@ -563,6 +570,7 @@ class UserSecurityModel(
         )
         payload = bytes(discovery_message)
         raw_response = await transport_handler(payload)
+        validate_ber_structure(raw_response)
         response, _ = decode(raw_response, enforce_type=Sequence)
         if isinstance(response, Null):
             raise SnmpError("Unexpectedly got a NULL object")
